@@ -79,6 +79,24 @@ func Mutants(rnd *hxlib.Rand, sc Scenario, o *Outcome) map[string][]string {
 	if !o.Quiet || len(t) > 48 {
 		return m
 	}
+	// a negative control must be REJECTED, which costs the validator an exhaustive search: with five or more calls open
+	// at once (senders and closers overlapping) that search can run out of its budget (3·10^6 states) and the check would
+	// report a correspondence it cannot decide — no controls from such traces
+	open, maxOpen := 0, 0
+	for _, e := range t {
+		switch {
+		case strings.HasPrefix(e, "scall "), strings.HasPrefix(e, "ccall "):
+			open++
+			if open > maxOpen {
+				maxOpen = open
+			}
+		case strings.HasPrefix(e, "sret "), strings.HasPrefix(e, "cret "):
+			open--
+		}
+	}
+	if maxOpen >= 5 {
+		return m
+	}
 	for _, e := range t {
 		if e == "prst" {
 			// after a reset the LTS lets any write fail, which legitimately explains lost packets; and the
